@@ -207,7 +207,15 @@ def _parse_verilate():
             srcs.append(t)
     if not top or not srcs:
         raise AnalysisBroken('cannot read top module / sources from verilate()')
-    return {'top': top, 'sources': srcs}
+    vargs = []
+    mode = None
+    for t in toks:
+        if t in ('SOURCES', 'VERILATOR_ARGS', 'TRACE', 'INCLUDE_DIRS', 'PREFIX', 'DIRECTORY'):
+            mode = t
+            continue
+        if mode == 'VERILATOR_ARGS':
+            vargs.append(t)
+    return {'top': top, 'sources': srcs, 'args': vargs}
 
 
 # ------------------------------------------------------------------------------------------------
